@@ -87,6 +87,7 @@ struct Item {
     painted: Option<usize>,
 }
 
+#[derive(Clone)]
 pub struct Oracle {
     w: usize,
     h: usize,
@@ -113,18 +114,40 @@ pub struct Oracle {
     pub vt_broken: bool,
     /// text lines were drawn in a draw in which not even the first bar line fitted the height (D14)
     text_without_bar: bool,
-    /// D14 by cause: the last painted output ended with the cursor in the MIDDLE of a row while the
-    /// frame was taller than the terminal (a draw cut by the height `break` before its last line
-    /// gets no right-edge filler) and nothing has cleared that row since
-    cut_mid_row: bool,
-    /// ... and THIS step wrote at that cursor without clearing the row first
-    cut_damage_now: bool,
-    /// ... in an earlier step, and every screen check since then ended in blank rows (a lost or
-    /// overwritten BLANK row cannot be seen until a non-blank row follows it)
-    cut_damage_unverified: bool,
-    /// D22 (C04): bottom alignment, a frame with padding rows was painted, a visibly finished member was dropped
+    /// Known findings are predicates on the FAILING OBSERVATION: when a screen check fails, the same
+    /// check is evaluated on the screen that the history would have produced WITHOUT the known defect;
+    /// the failure gets the finding's class iff that check passes (the defect explains exactly this
+    /// mismatch), otherwise it keeps its own class.
+    /// D14 ('height-cut-leaves-cursor-mid-row'): `vt_fixed` is fed the same calls as `vt`, plus the
+    /// right-edge filler that a draw cut by the height `break` before its last line does not write
+    /// (detected as: a draw that painted something ends left of the right edge while the frame is
+    /// taller than the terminal - an uncut draw always ends with the filler).
+    /// Second symptom of the same cause (the prototype patch P1 of D14 repairs both): a draw whose
+    /// vector is cut by the `break` before its FIRST line erases the old rows, paints nothing and
+    /// leaves the cursor on the blank row below the remaining output, but `cursor_below` stays false
+    /// (it is only set for an EMPTY vector), so the next erase is off by one row; `vt_fixed` gets the
+    /// missing move_cursor_up(1).
+    vt_fixed: Vt,
+    cut_injected: bool,
+    /// cursor_below as the real code keeps it / as the repaired code (P1) would keep it
+    below_real: bool,
+    below_fixed: bool,
+    /// 'empty-line-after-text-only-draw-swallowed' (open finding, C01/C03; Coq:
+    /// C01_empty_line_swallowed_refuted): the FIRST line written by a suspend closure is empty while
+    /// the cursor is wrap-pending at the right edge (left there by a draw whose last painted line was
+    /// a text line: nothing to erase) - the line only resolves the pending wrap.  `vt_swallow` gets
+    /// the row the property demands (one more write_line("")); `vt_both` gets this and the D14 repairs.
+    vt_swallow: Vt,
+    swallow_injected: bool,
+    vt_both: Vt,
+    last_injected: &'static str,
+    /// D22 ('bottom-alignment-kept-rows-misplaced', property C04 only): under bottom alignment with
+    /// padding rows the rows kept for a reaped finished bar are the padding rows, the bar's own rows
+    /// are erased by the next draw; the repaired expectation = kept rows may be missing (blank).
     d22_padded: bool,
-    d22_kept_candidate: bool,
+    /// false (set by the C02/C03 checks): the rows of visibly finished, dropped bars "may instead
+    /// remain" - their absence is not a failure of those properties
+    pub kept_rows_checked: bool,
     /// a println/clear/suspend had to erase kept rows + live rows taller than the terminal (D28)
     kept_out_of_reach: bool,
     /// a finished bar was dropped while the frame was taller than the terminal (D17)
@@ -180,11 +203,16 @@ impl Oracle {
             clear_then_drop: false,
             vt_broken: false,
             text_without_bar: false,
-            cut_mid_row: false,
-            cut_damage_now: false,
-            cut_damage_unverified: false,
+            vt_fixed: Vt::new(case.w, case.h),
+            cut_injected: false,
+            below_real: false,
+            below_fixed: false,
+            vt_swallow: Vt::new(case.w, case.h),
+            swallow_injected: false,
+            vt_both: Vt::new(case.w, case.h),
+            last_injected: "",
             d22_padded: false,
-            d22_kept_candidate: false,
+            kept_rows_checked: true,
             kept_out_of_reach: false,
             oversized_reap: false,
             last_lines: vec![vec![]; nb],
@@ -742,9 +770,6 @@ impl Oracle {
                 }
             }
             drop_final = Some((*b, g));
-            if self.place[*b] == Place::Member && !self.hidden_status[*b] {
-                self.d22_kept_candidate = true;
-            }
         }
         for (b, g) in o.getters.iter().enumerate() {
             if let Some(g) = g {
@@ -819,27 +844,6 @@ impl Oracle {
                 return self.step_frames_p3(op, o, must_paint, painted);
             }
         }
-        self.cut_damage_now = false;
-        if self.cut_mid_row {
-            for x in &o.emitted {
-                match x {
-                    TOp::Clear => {
-                        self.cut_mid_row = false;
-                        break;
-                    }
-                    TOp::Str(t) | TOp::Line(t) if !t.is_empty() => {
-                        self.cut_damage_now = true;
-                        self.cut_damage_unverified = true;
-                        break;
-                    }
-                    TOp::Line(_) => {
-                        self.cut_mid_row = false; // an empty write_line moves to a fresh row
-                        break;
-                    }
-                    _ => {}
-                }
-            }
-        }
         if self.bottom_ever
             && painted
             && o.emitted.iter().enumerate().any(|(i, x)| {
@@ -853,20 +857,111 @@ impl Oracle {
             self.vt_broken = true;
             return None;
         }
+        // position of the first line written by a suspend closure, if that line is empty
+        let empty_first_closure_line: Option<usize> = match op {
+            Op::Suspend(_, ws) | Op::MSuspend(ws) if ws.first().map_or(false, |l| l.is_empty()) => {
+                let pos = if matches!(o.emitted.first(), Some(TOp::Up(_))) {
+                    o.emitted.iter().position(|x| *x == TOp::Flush).map(|f| f + 1)
+                } else {
+                    Some(0)
+                };
+                pos.filter(|&p| matches!(o.emitted.get(p), Some(TOp::Line(l)) if l.is_empty()))
+            }
+            _ => None,
+        };
+        let tall: usize = self
+            .display
+            .iter()
+            .map(|i| i.cands.iter().map(|c| c.len()).max().unwrap_or(0))
+            .sum();
+        // where the repaired code would move the cursor up one more row before erasing (see below_fixed)
+        let ups: Vec<usize> = {
+            let e = &o.emitted;
+            let mut pos = vec![];
+            let mut i = 0;
+            let mut draw_no = 0;
+            while i < e.len() {
+                match &e[i] {
+                    TOp::Up(_) => {
+                        let end = e[i..].iter().position(|x| *x == TOp::Flush).map_or(e.len() - 1, |k| i + k);
+                        let seg = &e[i..=end];
+                        let erased = seg.iter().any(|x| *x == TOp::Clear);
+                        let erases_first = seg
+                            .iter()
+                            .find(|x| matches!(x, TOp::Clear | TOp::Str(_) | TOp::Line(_)))
+                            .map_or(false, |x| *x == TOp::Clear);
+                        let last_up = seg.iter().rposition(|x| matches!(x, TOp::Up(_))).unwrap_or(0);
+                        let painted_sth = seg[last_up..].iter().any(|x| matches!(x, TOp::Str(_)));
+                        if erases_first && self.below_fixed && !self.below_real {
+                            pos.push(i);
+                        }
+                        // the vector of this draw is known to be empty for clear() and the first draw of suspend
+                        let empty_vector = matches!(op, Op::MClear) || (draw_no == 0 && matches!(op, Op::MSuspend(_) | Op::Suspend(..)));
+                        let nonempty_cut = !painted_sth && !empty_vector && tall > self.h;
+                        self.below_real = if painted_sth || nonempty_cut { false } else if erased { true } else { self.below_real };
+                        self.below_fixed = if painted_sth { false } else if erased { true } else { self.below_fixed };
+                        draw_no += 1;
+                        i = end + 1;
+                    }
+                    TOp::Line(_) | TOp::Str(_) => {
+                        self.below_real = false; // written by the closure of suspend
+                        self.below_fixed = false;
+                        i += 1;
+                    }
+                    _ => i += 1,
+                }
+            }
+            pos
+        };
+        {
+            let w = self.w;
+            let feed_with = |vt: &mut Vt, ups: &[usize], swallow: Option<usize>| -> bool {
+                let mut injected = false;
+                let _ = crate::catch(|| {
+                    for (i, x) in o.emitted.iter().enumerate() {
+                        if ups.contains(&i) {
+                            vt.feed(&[TOp::Up(1)]);
+                        }
+                        if swallow == Some(i) && vt.cursor().1 == w {
+                            vt.feed(&[TOp::Line(String::new())]);
+                            injected = true;
+                        }
+                        vt.feed(std::slice::from_ref(x));
+                    }
+                });
+                injected
+            };
+            if feed_with(&mut self.vt_swallow, &[], empty_first_closure_line) {
+                self.swallow_injected = true;
+            }
+            if feed_with(&mut self.vt_both, &ups, empty_first_closure_line) {
+                self.last_injected = "empty-line-after-text-only-draw-swallowed";
+            }
+            let _ = feed_with(&mut self.vt_fixed, &ups, None);
+            if !ups.is_empty() {
+                self.cut_injected = true;
+                self.last_injected = "height-cut-leaves-cursor-mid-row";
+            }
+        }
         self.all_ops.extend(o.emitted.iter().cloned());
         if painted {
-            let (_, c) = self.vt.cursor();
-            let tall: usize = self
-                .display
-                .iter()
-                .map(|i| i.cands.iter().map(|c| c.len()).max().unwrap_or(0))
-                .sum();
-            // an uncut draw that paints anything ends with the right-edge filler (c == w); a draw cut by
-            // the height `break` before its last line ends wherever its last painted line ends
+            // an uncut draw that paints anything ends with the right-edge filler (column == width); a
+            // draw cut by the height `break` before its last line ends wherever its last painted line ends
+            let (_, c) = self.vt_fixed.cursor();
             let last_up = o.emitted.iter().rposition(|x| matches!(x, TOp::Up(_))).unwrap_or(0);
             let painted_something = o.emitted[last_up..].iter().any(|x| matches!(x, TOp::Str(_)));
-            if painted_something {
-                self.cut_mid_row = c < self.w && tall > self.h;
+            if painted_something && c < self.w && tall > self.h {
+                let filler = TOp::Str(" ".repeat(self.w - c));
+                let vf = &mut self.vt_fixed;
+                let _ = crate::catch(|| vf.feed(&[filler]));
+                self.cut_injected = true;
+                self.last_injected = "height-cut-leaves-cursor-mid-row";
+                let (_, cb) = self.vt_both.cursor();
+                if cb < self.w {
+                    let fb = TOp::Str(" ".repeat(self.w - cb));
+                    let vb = &mut self.vt_both;
+                    let _ = crate::catch(|| vb.feed(&[fb]));
+                }
             }
         }
         if let Some(what) = must_paint {
@@ -906,13 +1001,45 @@ impl Oracle {
                 self.kept_out_of_reach = true;
             }
         }
-        let res = self.check_screen(op, matches!(op, Op::MClear));
-        if res.is_none() && self.cut_damage_unverified && !self.cut_damage_now {
-            // the check was conclusive if the last written row is not blank
-            let (r, c) = self.vt.cursor();
-            let written = r + if c > 0 { 1 } else { 0 };
-            if self.vt.rows().len() >= written {
-                self.cut_damage_unverified = false;
+        let after_clear = matches!(op, Op::MClear);
+        let d22_possible = self.kept_rows_checked && self.bottom_ever && self.d22_padded;
+        let snapshot = if self.cut_injected || self.swallow_injected || d22_possible { Some(self.clone()) } else { None };
+        let mut res = self.check_screen(op, after_clear);
+        if let (Some(v), Some(snap)) = (res.as_mut(), snapshot) {
+            // is THIS mismatch explained by a known defect?
+            let mut explained = None;
+            if snap.cut_injected {
+                let mut alt = snap.clone();
+                alt.vt = alt.vt_fixed.clone();
+                if alt.check_screen(op, after_clear).is_none() {
+                    explained = Some("height-cut-leaves-cursor-mid-row"); // open finding D14
+                }
+            }
+            if explained.is_none() && snap.swallow_injected {
+                let mut alt = snap.clone();
+                alt.vt = alt.vt_swallow.clone();
+                if alt.check_screen(op, after_clear).is_none() {
+                    explained = Some("empty-line-after-text-only-draw-swallowed"); // open finding (C01, C03)
+                }
+            }
+            if explained.is_none() && snap.swallow_injected && snap.cut_injected {
+                // both known deviations occurred: the one injected last names the failure
+                let mut alt = snap.clone();
+                alt.vt = alt.vt_both.clone();
+                if alt.check_screen(op, after_clear).is_none() {
+                    explained = Some(snap.last_injected);
+                }
+            }
+            if explained.is_none() && d22_possible {
+                let mut alt = snap.clone();
+                alt.kept_rows_checked = false;
+                if alt.check_screen(op, after_clear).is_none() {
+                    explained = Some("bottom-alignment-kept-rows-misplaced"); // open finding D22 (C04)
+                }
+            }
+            if let Some(c) = explained {
+                v.class = c.into();
+                v.detail.push_str(" [this mismatch is explained by the open finding: the same check passes on the screen the history produces when only that defect is repaired]");
             }
         }
         if is_mp_paint && !matches!(op, Op::MClear | Op::Drop(_)) {
@@ -923,13 +1050,7 @@ impl Oracle {
 
     /// the narrow, history-determined classes of the recorded open findings; `default` otherwise
     fn classify(&self, default: &'static str) -> &'static str {
-        if self.cut_damage_now || self.cut_damage_unverified {
-            // open finding D14
-            "height-cut-leaves-cursor-mid-row"
-        } else if self.bottom_ever && self.d22_padded && self.d22_kept_candidate && !default.starts_with("log-") {
-            // open finding D22 (C04)
-            "bottom-alignment-kept-rows-misplaced"
-        } else if self.clear_then_drop {
+        if self.clear_then_drop {
             "finished-bar-dropped-after-clear"
         } else if self.oversized_reap {
             "finished-bar-dropped-while-frame-taller-than-terminal"
@@ -983,16 +1104,36 @@ impl Oracle {
         }
         let prefix_ok = got.len() >= trimmed_log.len() && (0..trimmed_log.len()).all(|i| row_eq(&got[i], &log_rows[i]));
         if !prefix_ok && self.bottom_ever {
-            // bottom alignment writes its padding above the text lines of a println: blank rows may
-            // sit between log lines; the region is whatever follows the last log row
-            let mut p = 0;
-            for lr in log_rows.iter().filter(|l| !l.is_empty()) {
-                if let Some(i) = (p..got.len()).find(|&i| row_eq(&got[i], lr)) {
-                    p = i + 1;
+            // bottom alignment: a suspend (fix 96a75c4) leaves the blank padding rows of the cleared
+            // region above what the closure prints: BLANK rows may sit between the static rows -
+            // nothing else may (a duplicated or displaced line is a failure)
+            let (mut i, mut j) = (0usize, 0usize);
+            let mut ok = true;
+            while j < trimmed_log.len() {
+                if i >= got.len() {
+                    ok = false;
+                    break;
+                }
+                if row_eq(&got[i], &log_rows[j]) {
+                    i += 1;
+                    j += 1;
+                } else if got[i].is_empty() {
+                    i += 1;
+                } else {
+                    ok = false;
+                    break;
                 }
             }
-            let region: Vec<String> = got[p.min(got.len())..].to_vec();
-            return self.check_region(op, after_clear, region, p);
+            if ok {
+                // trailing blank log rows: the region starts after them if they are there
+                let mut k = trimmed_log.len();
+                while k < log_rows.len() && i < got.len() && got[i].is_empty() {
+                    i += 1;
+                    k += 1;
+                }
+                let region: Vec<String> = got[i.min(got.len())..].to_vec();
+                return self.check_region(op, after_clear, region, i);
+            }
         }
         if !prefix_ok {
             let class = self.classify("log-not-contiguous-at-top");
@@ -1033,12 +1174,17 @@ impl Oracle {
             }
             // C19: lines are painted in order while the accumulated rows of bar lines fit the height
             let mut want: Vec<String> = vec![];
+            // the same without the rows of finished, dropped bars / with blank rows in their place
+            let mut want_nokept: Vec<String> = vec![];
+            let mut want_blank: Vec<String> = vec![];
             let mut used = 0usize;
             let mut cut = false;
             for it in self.display.iter_mut() {
                 if it.state == ItemState::Kept {
                     // static text: not limited by the height
-                    want.extend(it.cands.last().cloned().unwrap_or_default());
+                    let kr = it.cands.last().cloned().unwrap_or_default();
+                    want_blank.extend(kr.iter().map(|_| String::new()));
+                    want.extend(kr);
                     continue;
                 }
                 let lines: Vec<Vec<String>> = self.last_lines[it.bar].iter().map(|l| wrap_rows(l, self.w)).collect();
@@ -1050,6 +1196,8 @@ impl Oracle {
                     }
                     used += l.len();
                     want.extend(l.iter().cloned());
+                    want_nokept.extend(l.iter().cloned());
+                    want_blank.extend(l.iter().cloned());
                     k += 1;
                 }
                 it.painted = if k == lines.len() { None } else { Some(k) };
@@ -1064,7 +1212,14 @@ impl Oracle {
             while w2.last().map_or(false, |r| r.is_empty()) {
                 w2.pop();
             }
-            let ok = g.len() == w2.len() && g.iter().zip(w2.iter()).all(|(a, b)| row_eq(a, b));
+            let same = |g: &[String], w: &[String]| {
+                let mut w2 = w.to_vec();
+                while w2.last().map_or(false, |r| r.is_empty()) {
+                    w2.pop();
+                }
+                g.len() == w2.len() && g.iter().zip(w2.iter()).all(|(a, b)| row_eq(a, b))
+            };
+            let ok = same(&g, &w2) || (!self.kept_rows_checked && (same(&g, &want_nokept) || same(&g, &want_blank)));
             // windows are not tracked for oversized frames: accept any admissible older state only
             // through the exact check above (these runs use gaps that keep every draw current)
             return if ok {
@@ -1079,17 +1234,32 @@ impl Oracle {
                 })
             };
         }
-        let items: Vec<Item> = if after_clear {
+        let mut items: Vec<Item> = if after_clear {
             vec![]
         } else {
             self.display.clone()
         };
+        if !self.kept_rows_checked {
+            for it in items.iter_mut() {
+                if it.state == ItemState::Kept {
+                    it.optional = true;
+                    if self.bottom_ever {
+                        // D22 keeps the TOP rows of the padded region: padding + leading rows of the bar
+                        if let Some(full) = it.cands.last().cloned() {
+                            for k in 1..full.len() {
+                                it.cands.push(full[..k].to_vec()); // appended: original indices stay valid
+                            }
+                        }
+                    }
+                }
+            }
+        }
         match match_region(&region, &items, 0, 0, self.bottom_ever) {
             Some(choice) => {
                 if !after_clear {
                     let rows: usize = choice
                         .iter()
-                        .zip(self.display.iter())
+                        .zip(items.iter())
                         .map(|(c, it)| c.map_or(0, |c| it.cands[c].len()))
                         .sum();
                     self.top = self.top.max((n + rows).saturating_sub(self.h));
@@ -1109,7 +1279,12 @@ impl Oracle {
                     }
                     match choice[k] {
                         Some(c) => {
-                            it.cands.drain(..c);
+                            if c < it.cands.len() {
+                                it.cands.drain(..c);
+                            } else {
+                                // a kept bar of which only leading rows are left (kept rows not checked)
+                                it.cands = vec![items[k].cands[c].clone()];
+                            }
                             keep.push(idx);
                         }
                         None => {}
@@ -1250,11 +1425,23 @@ fn match_region(rows: &[String], items: &[Item], k: usize, p: usize, allow_blank
 /// Runs the cases on the implementation, evaluates the screen oracle, registers each case with the
 /// session (correspondence with model/Sys.v).  `accept` filters oracle classes a binary cares about.
 pub fn run_sys_cases(s: &mut crate::Session, cases: &[Case], nontrivial: &dyn Fn(&Case, &[StepObs]) -> bool) {
+    run_sys_cases_mode(s, cases, nontrivial, true)
+}
+
+/// `kept_rows_checked = false` (C02, C03): the rows of visibly finished, dropped bars may be missing
+/// (those properties say they "may instead remain"); C04 and C19 check them.
+pub fn run_sys_cases_mode(
+    s: &mut crate::Session,
+    cases: &[Case],
+    nontrivial: &dyn Fn(&Case, &[StepObs]) -> bool,
+    kept_rows_checked: bool,
+) {
     let mut checks = 0;
     for case in cases {
         let obs = run_case(case);
         let desc = describe(case);
         let mut or = Oracle::new(case);
+        or.kept_rows_checked = kept_rows_checked;
         let mut bad = None;
         if let Ok(pat) = std::env::var("VERIF_DEBUG_CASE") {
             if desc.contains(&pat) {
